@@ -98,6 +98,10 @@ package requestf
 //@   site ).Skip#2 assert [C04] $1 == 8 && $2 == 9 && $3 == true
 //@   site ).Skip#3 assert [C04] $1 == 8 && $2 == 10 && $3 == true
 //@   sites ).Skip = 4
+//@   site ).Read#12 assert [C04] $1 == addr(k1)
+//@   site ).Read#13 assert [C04] $1 == addr(v1)
+//@   site ).Read#15 assert [C04] $1 == addr(k2)
+//@   site ).Read#16 assert [C04] $1 == addr(v2)
 //@   safety [C05]
 //
 //@ func (*RequestPacket).ReadBlock
@@ -195,6 +199,10 @@ package requestf
 //@   site ).Skip#2 assert [C04] $1 == 8 && $2 == 7 && $3 == true
 //@   site ).Skip#3 assert [C04] $1 == 8 && $2 == 9 && $3 == false
 //@   sites ).Skip = 4
+//@   site ).Read#10 assert [C04] $1 == addr(k1)
+//@   site ).Read#11 assert [C04] $1 == addr(v1)
+//@   site ).Read#14 assert [C04] $1 == addr(k2)
+//@   site ).Read#15 assert [C04] $1 == addr(v2)
 //@   safety [C05]
 //
 //@ func (*ResponsePacket).ReadBlock
@@ -246,6 +254,10 @@ package requestf
 //@   site ).Write#17 assert [C03] $2 == 0
 //@   site ).Write#18 assert [C03] $2 == 1
 //@   sites ).Write = 19
+//@   site ).Write#13 assert [C03] $1 == k3
+//@   site ).Write#14 assert [C03] $1 == v3
+//@   site ).Write#17 assert [C03] $1 == k4
+//@   site ).Write#18 assert [C03] $1 == v4
 //@   safety [C03]
 //
 //@ func (*ResponsePacket).WriteTo
@@ -278,6 +290,10 @@ package requestf
 //@   site ).Write#16 assert [C03] $2 == 0
 //@   site ).Write#17 assert [C03] $2 == 1
 //@   sites ).Write = 18
+//@   site ).Write#11 assert [C03] $1 == k3
+//@   site ).Write#12 assert [C03] $1 == v3
+//@   site ).Write#16 assert [C03] $1 == k4
+//@   site ).Write#17 assert [C03] $1 == v4
 //@   safety [C03]
 //
 // WriteBlock frames the struct as a nested field: StructBegin head under the given tag, the members, StructEnd head (tag 0).
